@@ -18,16 +18,49 @@ let show = function
   | Found (Some v) -> Printf.sprintf "F %d" (int_of_n v)
   | Matches None -> "M !"
   | Matches (Some l) -> String.concat " " ("M" :: List.map (fun v -> string_of_int (int_of_n v)) l)
+  | PutDone -> "U"
+  | ForkBegin -> "Y"
+  | ForkEnd -> "Z"
+
+(* history lines:  D <val> <keys..> | L <keys..> | S <keys..> | U <val> <keys..> (Put) | Y (fork begin) | Z (fork end)
+   Y .. Z is one model operation Fork [..] (nesting allowed). A Y without a matching Z forks until the end of
+   the history ("copy and continue on the copy"): its closing ForkEnd is not printed. A Z without a Y is a no-op
+   that prints Z, as in triex. *)
+type item = IOp of (tok, n) top | IY | IZ
+
+(* the operations up to the matching Z, the remaining items, the number of forks left open at the end *)
+let rec block items =
+  match items with
+  | [] -> ([], [], 1)
+  | IZ :: rest -> ([], rest, 0)
+  | IY :: rest ->
+    let (inner, rest1, u1) = block rest in
+    if u1 > 0 then ([Fork inner], [], u1 + 1)
+    else let (ops, rest2, u2) = block rest1 in (Fork inner :: ops, rest2, u2)
+  | IOp o :: rest -> let (ops, rest1, u) = block rest in (o :: ops, rest1, u)
+
+let rec take n l = if n <= 0 then [] else match l with [] -> [] | x :: r -> x :: take (n - 1) r
+
+let run_history items =
+  let rec go t items =
+    match items with
+    | [] -> ()
+    | IZ :: rest -> print_endline "Z"; go t rest
+    | IOp o :: rest ->
+      let (t', outs) = c20_step t o in
+      List.iter (fun o -> print_endline (show o)) outs; go t' rest
+    | IY :: rest ->
+      let (inner, rest1, u) = block rest in
+      let (t', outs) = c20_step t (Fork inner) in
+      let outs = take (List.length outs - u) outs in
+      List.iter (fun o -> print_endline (show o)) outs; go t' rest1 in
+  go c20_empty items
 
 let () =
   let lines = read_lines stdin in
-  let pre = ref [] and cur = ref [] and copied = ref false in
-  let segment () =
-    (* with a copy, the outputs of the prefix were already printed *)
-    let outs = if !copied then c20_run_copy (List.rev !pre) (List.rev !cur) else c20_run (List.rev !cur) in
-    List.iter (fun o -> print_endline (show o)) outs in
-  let flush () = segment (); pre := []; cur := []; copied := false in
+  let cur = ref [] in
   let started = ref false in
+  let flush () = run_history (List.rev !cur); cur := [] in
   List.iter (fun line ->
     match split_ws line with
     | "T" :: id :: tt :: rest ->
@@ -51,12 +84,11 @@ let () =
         Printf.printf "E %d %s %s\n" i (Buffer.contents b) (Buffer.contents c)
       done
     | ["H"] -> if !started then flush (); started := true; print_endline "H"
-    | ["Y"] ->
-      (* outputs of the prefix first, then continue on the copy *)
-      segment ();
-      pre := !cur @ !pre; cur := []; copied := true; print_endline "Y"
-    | "D" :: v :: ks -> cur := Declare (keys ks, n_of_int (int_of_string v)) :: !cur
-    | "L" :: ks -> cur := Lookup (keys ks) :: !cur
-    | "S" :: ks -> cur := Search (keys ks) :: !cur
+    | ["Y"] -> cur := IY :: !cur
+    | ["Z"] -> cur := IZ :: !cur
+    | "D" :: v :: ks -> cur := IOp (Declare (keys ks, n_of_int (int_of_string v))) :: !cur
+    | "U" :: v :: ks -> cur := IOp (Put (keys ks, n_of_int (int_of_string v))) :: !cur
+    | "L" :: ks -> cur := IOp (Lookup (keys ks)) :: !cur
+    | "S" :: ks -> cur := IOp (Search (keys ks)) :: !cur
     | _ -> ()) lines;
   if !started then flush ()
